@@ -161,14 +161,14 @@ func ruleW5(w *world.World, r *report.RuleResult) {
 	}
 }
 
-func ruleCL(w *world.World, r *report.RuleResult) {
+// connLoop finds the connection loop: the function that reads request messages
+// (internal.ReadMessage) and from which the dispatcher is reached, directly, through an
+// immediately invoked closure or a helper; cmdCall is that call.
+func connLoop(w *world.World) (*ssa.Function, ssa.Instruction, error) {
 	disp, _, err := w.Dispatcher()
 	if err != nil {
-		r.Err = err
-		return
+		return nil, nil, err
 	}
-	// the connection loop: the function that reads request messages (internal.ReadMessage) and from
-	// which the dispatcher is reached, directly, through an immediately invoked closure or a helper
 	var loop *ssa.Function
 	var cmdCall ssa.Instruction
 	for _, fn := range w.FuncsIn("sugardb") {
@@ -195,7 +195,15 @@ func ruleCL(w *world.World, r *report.RuleResult) {
 		}
 	}
 	if loop == nil {
-		r.Err = fmt.Errorf("connection loop (function reading request messages and calling the dispatcher) not found")
+		return nil, nil, fmt.Errorf("connection loop (function reading request messages and calling the dispatcher) not found")
+	}
+	return loop, cmdCall, nil
+}
+
+func ruleCL(w *world.World, r *report.RuleResult) {
+	loop, cmdCall, err := connLoop(w)
+	if err != nil {
+		r.Err = err
 		return
 	}
 	fname := world.FuncName(loop)
@@ -249,6 +257,15 @@ func ruleCL(w *world.World, r *report.RuleResult) {
 				hasWriter = true
 			}
 		}
+		for _, fv := range f.FreeVars {
+			t := fv.Type()
+			if pt, ok := t.(*types.Pointer); ok {
+				t = pt.Elem()
+			}
+			if _, isIface := t.Underlying().(*types.Interface); isIface || world.TypeIs(t, "net", "Conn") {
+				hasWriter = true // a local closure around the connection's writer
+			}
+		}
 		if !hasWriter {
 			return false
 		}
@@ -286,6 +303,45 @@ func ruleCL(w *world.World, r *report.RuleResult) {
 		return 0
 	}
 	must := world.Must(loop, eg, gen, kill)
+	// a counted loop over the reply whose first iteration is certain (`for i := 0; i < len(res); ...`
+	// after a test len(res) > c) is left only after an iteration: when every iteration writes, the
+	// edge that leaves the loop carries the write
+	{
+		certain := map[*ssa.BasicBlock]int{}
+		for _, h := range loop.Blocks {
+			exit, ok := world.FirstTripCertain(h)
+			if !ok {
+				continue
+			}
+			all := true
+			for _, p := range h.Preds {
+				if !h.Dominates(p) {
+					continue
+				}
+				f := must[p]
+				for _, in := range p.Instrs {
+					f &^= kill(in)
+					f |= gen(in)
+				}
+				if f&DONE == 0 {
+					all = false
+				}
+			}
+			if all {
+				certain[h] = exit
+			}
+		}
+		if len(certain) > 0 {
+			eg0 := eg
+			eg = func(b *ssa.BasicBlock, si int) world.Facts {
+				if e, ok := certain[b]; ok && e == si {
+					return DONE | eg0(b, si)
+				}
+				return eg0(b, si)
+			}
+			must = world.Must(loop, eg, gen, kill)
+		}
+	}
 	// loop header: the block containing the message read (ReadMessage) — back edges to it
 	var header *ssa.BasicBlock
 	for _, c := range world.Calls(loop) {
